@@ -289,6 +289,8 @@ def jobs(tier, seed):
     for i in range(0, len(cs), n):
         js.append(dict(cases=cs[i:i + n]))
     js.append(dict(referer=True))
+    for order in itertools.permutations(range(4)):
+        js.append(dict(crawl_cookies=list(order)))
     if seed:
         k = seed % len(js)
         js = js[k:] + js[:k]
@@ -300,6 +302,62 @@ def classify(v):
     v = re.sub(r"'[^']*'|\"[^\"]*\"", 'X', v)
     v = re.sub(r'\d+', 'N', v)
     return v[:60]
+
+
+def run_crawl_cookies(order):
+    """A recursive crawl over three hosts that all set host-only and domain cookies (b.test
+    also tries to plant one for a.test): every Cookie header may only carry cookies the
+    receiving host is entitled to.  ``order`` permutes the link order (= visiting order)."""
+    links = ['http://b.test/x', 'http://sub.a.test/y', 'http://a.test:8080/z', '/again']
+    links = [links[i] for i in order]
+    site = {'hosts': {
+        'a.test': {'/': {'links': links}, '/again': {'links': ['http://b.test/x2']}},
+        'b.test': {'/x': {'links': ['http://a.test/back']}, '/x2': {'links': []}},
+        'sub.a.test': {'/y': {'links': ['http://a.test/back2', 'http://b.test/x3']}},
+        'a.test:8080': {'/z': {'links': []}},
+    }}
+    for h in ('a.test', 'b.test', 'sub.a.test'):
+        for p in ('/back', '/back2', '/x3'):
+            site['hosts'][h].setdefault(p, {'links': []})
+
+    def strategy(peer, conn, req):
+        host = req['headers'].get('host', '').split(':')[0]
+        hk = peer.hostkey(conn, req)
+        page = dict(site['hosts'].get(hk, {}).get(req['target']) or
+                    {'status': 404, 'body': 'nf'})
+        tag = host.replace('.', '_')
+        hs = [['Set-Cookie', 'hc_%s=1' % tag],
+              ['Set-Cookie', 'dc_%s=1; Domain=%s; Path=/' % (tag, host)]]
+        if host == 'b.test':
+            hs.append(['Set-Cookie', 'evil=1; Domain=a.test; Path=/'])
+            hs.append(['Set-Cookie', 'evil2=1; Domain=.test; Path=/'])
+        page['headers'] = hs
+        return page
+    argv = ['http://a.test/', '-r', '--span-hosts', '--no-robots', '--delete-after',
+            '--waitretry', '0', '--tries', '1']
+    out = AppRun(site, argv, Chooser(), strategy=strategy, early=False).run()
+    if out['result'] != 'ok' or out['exc']:
+        return 'crawl failed: %s %s' % (out['result'], out['exc']), out
+    seen_hosts = set()
+    for q in out['requests']:
+        host = q['headers'].get('host', '').split(':')[0]
+        seen_hosts.add(host)
+        ck = q['headers'].get('cookie', '')
+        for name in re.findall(r'([A-Za-z0-9_]+)=', ck):
+            if name.startswith('evil'):
+                return '%s %s: cookie %s planted by b.test for a foreign domain was ' \
+                       'accepted and sent' % (host, q['target'], name), out
+            kind, _, tag = name.partition('_')
+            owner = tag.replace('_', '.')
+            if kind == 'hc' and owner != host:
+                return '%s %s: host-only cookie of %s sent' % (host, q['target'], owner), out
+            if kind == 'dc' and not (host == owner or host.endswith('.' + owner)):
+                return '%s %s: domain cookie of %s sent' % (host, q['target'], owner), out
+    if not {'a.test', 'b.test', 'sub.a.test'} <= seen_hosts:
+        return 'scenario did not visit all hosts: %s' % sorted(seen_hosts), out
+    if not any('cookie' in q['headers'] for q in out['requests']):
+        return 'no request carried a cookie: the scenario is vacuous', out
+    return None, out
 
 
 def run_referer():
@@ -324,6 +382,18 @@ def run_job(job):
     res = dict(evaluations=0, states=set(), transitions=0, outcomes={}, violations=[],
                samples=[], distinct=set(), extra={'requests_checked': 0})
     seen = set()
+    if job.get('crawl_cookies') is not None:
+        v, out = run_crawl_cookies(job['crawl_cookies'])
+        res['evaluations'] += 1
+        res['extra']['requests_checked'] += len(out.get('requests') or [])
+        res['extra']['requests_with_cookie'] = sum(
+            1 for q in (out.get('requests') or []) if 'cookie' in q['headers'])
+        res['distinct'].add(h64(('crawl-cookies', tuple(job['crawl_cookies']))))
+        if v:
+            res['violations'].append(dict(violation='%s [link order %s]' % (
+                v, job['crawl_cookies']), signature='C16:crawl-cookies:' + classify(v),
+                crawl_cookies=job['crawl_cookies']))
+        return res
     if job.get('referer'):
         v, out = run_referer()
         res['evaluations'] += 1
@@ -364,6 +434,10 @@ def replay(rec):
     if rec.get('referer'):
         v, out = run_referer()
         return v, 'C16:referer' if v else None, [q['raw'] for q in out['requests']]
+    if rec.get('crawl_cookies') is not None:
+        v, out = run_crawl_cookies(rec['crawl_cookies'])
+        return (rec['violation'] if v else None), (rec['signature'] if v else None), \
+            [q['raw'] for q in out.get('requests') or []]
     case = rec['case']
     case['chain'] = [tuple(x) for x in case['chain']]
     out = run_case_lib(case) if case.get('lib') else run_case(case)
